@@ -249,6 +249,60 @@ def fam_sequential(maxlen, with_fail=True):
     return out
 
 
+WATCH_KEYS = {
+    "1": {"path": 1},                                                        # "/w1", non-recursive, no filter
+    "2": {"path": 1, "spell": "path"},                                       # pathlib.Path("/w1"): the same watch as 1
+    "3": {"path": 1, "recursive": True},                                     # recursive flag differs: another watch
+    "4": {"path": 1, "filter": ["FileModifiedEvent", "FileCreatedEvent"]},   # filter differs: another watch
+    "5": {"path": 1, "filter": ["FileCreatedEvent", "FileModifiedEvent"]},   # the same filter in another order: the same as 4
+    "6": {"path": 2},
+}
+
+
+def fam_watch_keys(maxlen):
+    """C13: 'distinct watches (path, recursive flag, filter)': call sequences over six spellings of four watches; the
+    harness logs every call under the watch it denotes, so the reference map has four keys; the probe after every call
+    shows whether the observer agrees (one emitter per watch, routes equal to the map, unscheduling one spelling
+    unschedules the watch and no other)."""
+    ops_all = ([["schedule", 1, w] for w in (1, 2, 3, 4, 5, 6)] + [["schedule", 2, w] for w in (2, 5)] +
+               [["unschedule", w] for w in (1, 2, 3, 4, 5)] + [["remove", 1, w] for w in (2, 5)] + [["start"]])
+    canon = {1: 1, 2: 1, 3: 3, 4: 4, 5: 4, 6: 6}
+    out = []
+    for L in range(2, maxlen + 1):
+        for seq in itertools.product(ops_all, repeat=L):
+            reg = {}
+            ok = True
+            started = False
+            for op in seq:
+                if op[0] == "schedule":
+                    reg.setdefault(canon[op[2]], set()).add(op[1])
+                elif op[0] == "unschedule":
+                    if canon[op[1]] not in reg:
+                        ok = False
+                        break
+                    del reg[canon[op[1]]]
+                elif op[0] == "remove":
+                    if op[1] not in reg.get(canon[op[2]], ()):
+                        ok = False
+                        break
+                    reg[canon[op[2]]].discard(op[1])
+                elif op[0] == "start":
+                    if started:
+                        ok = False
+                        break
+                    started = True
+            # keep the sequences that use two spellings of one watch or two watches on one path
+            used = {op[-1] for op in seq if op[0] != "start"}
+            if not ok or len(used) < 2:
+                continue
+            ops = []
+            for op in seq:
+                ops += [op, ["probe"]]
+            tail = [["await"], ["probe"], ["stop"], ["join"]] if started else []
+            out.append({"threads": {"app1": ops + tail}, "emit": {"1": [1], "3": [1], "4": [1], "6": [1]}, "wspec": WATCH_KEYS})
+    return out
+
+
 def fam_failures(maxlen):
     """C13: schedule() that raises (emitter cannot be created / cannot be started) at every position of short sequences,
     followed by a successful schedule of the same watch for another handler and an event."""
